@@ -203,6 +203,8 @@ class BaseDataDrift(BaseDetector):
         self.X_ref = None
 
     def _check_fit_dimensions(self, X: np.ndarray) -> None:  # noqa: N803
+        if X.ndim > 2:
+            raise DimensionError(f"Dimensions of X ({X.ndim})")
         try:
             if not self.statistical_type.dim_check(X.shape[1], 1):  # type: ignore
                 raise DimensionError(f"Dimensions of X ({X.shape[-1]})")
